@@ -22,14 +22,18 @@ RULE = ('cases = random subset and order of (Tags, Error, Volatile, Retry) passe
         'model.trigger calls (50% repeat the previous call, 4% unknown event), in 60% of the cases with Error (25% of '
         'the others) interleaved with 1-4 machine.add_transition / machine.remove_transition(event, source=state) '
         'calls biased to taking a state\'s last outgoing transition away, giving a dead end a way out and re-adding '
-        'what was removed; every 9th case is from the malformed '
+        'what was removed; re-entrant stream (30% of the flat cases with Retry, 8% of the others, fixed table): 1-2 '
+        'on_enter callbacks trigger an event on their own model inside the callback (unqueued machine), 85% the '
+        'reflexive event of their state, the first 1-6 times they are invoked; every 9th case is from the malformed '
         'stream (arguments of absent mixins, retries without on_failure, Tags before Error, duplicate mixin).  After '
         'every call: callback trace (enter/exit/on_failure, model, state seen), result / exception type, every '
         'model\'s state and the identity of the object visible under each hook name (fresh = never observed before '
         'under any name on any model); is_<tag> of every state; the same history on the undecorated class.  '
         'Non-trivial: construction succeeded and some call hit a mixin branch (Error raised, on_failure fired, a '
         'volatile object replaced, or a state entered while its hook name was occupied), distinct by hash of the case.')
-ASSUMPTIONS = ['callbacks (on_enter/on_exit/on_failure) neither raise nor call back into the machine (C04/C05 cover those)',
+ASSUMPTIONS = ['callbacks do not raise; on_enter callbacks may trigger an event on their own model on an unqueued machine '
+               '(re-entrant stream, flat configurations with a fixed table, bounded by a per-callback budget); on_exit / '
+               'on_failure callbacks and queued machines do not call back (C04/C05 cover those)',
                'transitions carry no conditions (C01 covers candidate selection); state trees without parallel states',
                'the order-independent specification (FeaturesSpec) and the oracle clauses on traces cover flat '
                'configurations; on state trees the model (FeaturesH) is compared with the implementation and the '
@@ -42,7 +46,8 @@ THEOREMS = ['C19_tags', 'C19_error_iff', 'C19_retry_spec', 'C19_retry_exact', 'C
             'C19_frame_state', 'C19_frame', 'C19_frame_nonvacuous', 'C19_volatile_entry_fresh',
             'C19_volatile_exit_removes', 'C19_volatile_occupied', 'C19_retry_spec_occupied', 'C19_hier_flat',
             'C19_hier_fresh', 'C19_volatile_refuted_nested', 'C19_dyn_static', 'C19_error_iff_dynamic',
-            'C19_has_trigger_add', 'C19_has_trigger_remove', 'C19_error_dynamic', 'C19_retry_refuted_dynamic']
+            'C19_has_trigger_add', 'C19_has_trigger_remove', 'C19_error_dynamic', 'C19_retry_refuted_dynamic',
+            'C19_retry_reentrant', 'C19_reentrant_static', 'C19_reentrant_prefix', 'C19_retry_reentrant_demo']
 
 TAGS = [0, 1, 2, 3, 4]
 HOOKS = [0, 1, 2]
@@ -164,7 +169,26 @@ def gen(rng, i, tier):
     # the machine's transitions change while it runs: add_transition / remove_transition(event, source=...)
     # between the calls, biased to what matters for Error: take a state's last outgoing transition away, give a
     # dead end a way out, remove and re-add
-    if rng.random() < (0.6 if FE in feats else 0.25):
+    # re-entrant stream (flat, fixed table): an on_enter callback triggers an event on its own model while the
+    # machine has no queue — typically the reflexive retry event of a Retry state — the first <budget> times
+    retrig = []
+    if not nested and not malformed and rng.random() < (0.3 if FR in feats else 0.08):
+        for _ in range(rng.choice([1, 1, 2])):
+            cand = [s_ for s_ in states if s_['retries'] > 0] if rng.random() < 0.7 else []
+            s_ = rng.choice(cand or states)
+            if not s_['enter']:
+                cb[0] += 1
+                s_['enter'].append(cb[0])
+            refl = [t[0] for t in trans if t[1] == s_['id'] and t[2] == s_['id']]
+            if not refl and rng.random() < 0.8:
+                e_ = rng.randrange(ne)
+                trans.insert(0, [e_, s_['id'], s_['id']])
+                refl = [e_]
+            ev = rng.choice(refl) if refl and rng.random() < 0.85 else rng.randrange(ne + 1)
+            c_ = rng.choice(s_['enter'])
+            if not any(x[0] == c_ for x in retrig):
+                retrig.append([c_, ev, rng.randint(1, 6)])
+    if not retrig and rng.random() < (0.6 if FE in feats else 0.25):
         cur = [list(t) for t in trans]
         out = []
         removed = []
@@ -194,7 +218,7 @@ def gen(rng, i, tier):
                     out.append(['add'] + t)
         hist = out
     case = dict(cls=cls, order=feats, states=states, trans=trans, ignore=rng.random() < 0.25,
-                nmodels=nm, init=rng.randrange(ns), history=hist, tree=None, pre=[], clsattr=[])
+                nmodels=nm, init=rng.randrange(ns), history=hist, tree=None, pre=[], clsattr=[], retrig=retrig)
     if nested:
         case['tree'] = dict(parent=parent, initial=initial)
         case['init'] = ([case['init']] + init_chain(case, case['init']))[-1]
@@ -311,7 +335,8 @@ def enc(case):
               s['hook'], s['retries'], [] if s['on_failure'] is None else [s['on_failure']]] for s in build_order(case)],
             [[e, s, [] if d is None else [d]] for e, s, d in case['trans']],
             bool(case['ignore']), case['nmodels'], case['init'], [enc_hist(hc) for hc in case['history']], TAGS, HOOKS,
-            paths, inits, [list(x) for x in pre], [list(x) for x in cl], len(pre) + len(cl)]
+            paths, inits, [list(x) for x in pre], [list(x) for x in cl], len(pre) + len(cl),
+            [list(x) for x in case.get('retrig', [])]]
 
 
 # ------------------------------------------------------------------ implementation side
@@ -356,9 +381,17 @@ def _run_machine(tr, case, decorated):
     def state_int(model):
         return name_id.get(str(model.state), 999)
 
+    retrig = {c: (e, b) for c, e, b in case.get('retrig', [])}
+    ncalls = {}
+
     def rec(kind, cb):
         def f(event_data):
             log.append([kind, cb, mid.get(id(event_data.model), 99), state_int(event_data.model)])
+            if kind == 1 and cb in retrig:
+                n = ncalls.get(cb, 0)
+                ncalls[cb] = n + 1
+                if n < retrig[cb][1]:        # processed at once, inside this callback: the machine has no queue
+                    event_data.model.trigger('e%d' % retrig[cb][0])
         f.__name__ = 'cb%d_%d' % (kind, cb)
         return f
 
@@ -526,6 +559,73 @@ def volatile_guard(case):
     return chain_guard(case) and (FV not in case['order'] or branch_guard(case))
 
 
+def py_rrun(case):
+    """expected observations of a re-entrant case, written from the property: an entry is counted before the
+    enter callbacks run, so an entry nested in one of them sees it; on_failure instead of the enter callbacks once
+    more than `retries` consecutive entries have been counted; a raise of a nested trigger ends the outer ones"""
+    sd, h = _sd(case), _has(case)
+    nm = case['nmodels']
+    cur = [case['init']] * nm
+    streak = [0] * nm
+    calls = {}
+    retrig = {c: (e, b) for c, e, b in case.get('retrig', [])}
+    known = {t[0] for t in case['trans']}
+
+    def step(m, e, depth):
+        if depth > 60:
+            raise RuntimeError('re-entrant budget exceeded')
+        t = _first_cand(case, e, cur[m]) if e in known else None
+        if t is None:
+            return [], ([0, False] if case['ignore'] else [1, 0 if e in known else 1])
+        if t[2] is None:
+            return [], [0, True]
+        s, d = cur[m], t[2]
+        ds = sd[d]
+        items = [[0, c, m, s] for c in sd[s]['exit']]
+        err = h['error'] and _error_state(case, ds)
+        k = streak[m] if s == d else 0
+        exhausted = h['retry'] and ds['retries'] > 0 and k > ds['retries']
+        cur[m] = d
+        streak[m] = k if exhausted else k + 1
+        if err:
+            return items, [1, 0]
+        if exhausted:
+            return items + [[2, ds['on_failure'], m, d]], [0, True]
+        for c in ds['enter']:
+            items.append([1, c, m, cur[m]])
+            n = calls.get(c, 0)
+            calls[c] = n + 1
+            if c in retrig and n < retrig[c][1]:
+                it, res = step(m, retrig[c][0], depth + 1)
+                items += it
+                if res[0] == 1:
+                    return items, res
+        return items, [0, True]
+
+    out = []
+    for hc in case['history']:
+        items, res = step(hc[0], hc[1], 0)
+        out.append([items, res, list(cur)])
+    return out
+
+
+def check_reentrant(case, obs):
+    bad = []
+    _, table, steps, psteps = obs[1][:4]
+    h = _has(case)
+    for s, row in zip(build_order(case), table):
+        for t, ans in zip(TAGS, row):
+            exp = [t in _eff_tags(case, s)] if h['tags'] else []
+            if ans != exp:
+                bad.append(('C19_tags', 'state %d tag %d: %r' % (s['id'], t, ans), {}))
+    for k, ((items, res, snap), (xi, xr, xs)) in enumerate(zip(steps, py_rrun(case))):
+        if items != xi or res != xr or [st for st, _ in snap] != xs:
+            bad.append(('C19_retry_reentrant', 'call %d: %r %r %r expected %r %r %r' % (
+                k, items, res, [st for st, _ in snap], xi, xr, xs), {}))
+            break
+    return bad
+
+
 def check_clauses(case, obs, info=None):
     """returns the list of (clause, detail, data) that fail on the observation.  Object identities are only
     compared for equality: an object expected to be FRESH must never have been observed before (under any
@@ -534,6 +634,8 @@ def check_clauses(case, obs, info=None):
     bad = []
     if not isinstance(obs, list) or obs[0] != 1 or obs[1][0] != 0:
         return bad
+    if case.get('retrig'):
+        return check_reentrant(case, obs)
     _, table, steps, psteps = obs[1][:4]
     sd = _sd(case)
     h = _has(case)
@@ -773,7 +875,7 @@ def extra_checks(tier, seed):
             bad = dict(kind='model-vs-spec', theorem='C19_retry_spec / C19_volatile (extracted)', case=c,
                        model_obs=steps, spec_obs=ssteps)
             break
-        if steps != hsteps:
+        if not c.get('retrig') and steps != hsteps:
             bad = dict(kind='model-vs-model', theorem='hierarchical engine = flat engine on flat configurations',
                        case=c, model_obs=steps, hier_obs=hsteps)
             break
@@ -799,6 +901,9 @@ def in_envelope(case):
 def nontrivial(case, obs):
     if not isinstance(obs, list) or obs[0] != 1 or obs[1][0] != 0:
         return False
+    if case.get('retrig'):
+        rc = {x[0] for x in case['retrig']}
+        return any(sum(1 for it in items if it[0] == 1 and it[1] in rc) >= 2 for items, _, _ in obs[1][2])
     info = {}
     check_clauses(case, obs, info)
     if info.get('entries_with_occupied_hook'):
@@ -835,6 +940,11 @@ def stats(case, obs, dist):
     if FV in case['order'] and not branch_guard(case):
         inc('outside_branch_guard')
     inc('nested' if case.get('tree') else 'flat')
+    if case.get('retrig'):
+        rc = {x[0] for x in case['retrig']}
+        inc('reentrant_cases')
+        inc('nested_triggers', sum(max(0, sum(1 for it in items if it[0] == 1 and it[1] in rc) - 1)
+                                   for items, _, _ in obs[1][2]))
     if is_dynamic(case):
         inc('cases_with_add_or_remove_transition')
         inc('reconfigurations', sum(1 for hc in case['history'] if not is_call(hc)))
